@@ -221,8 +221,8 @@ def eval_unit_once(u, ns0, args, labels=None):
     for label, text in u.ensures:
         if labels is not None and label not in labels:
             continue
-        if label in rt.get("skip_ensures", ()):
-            continue
+        if label in rt.get("skip_ensures", ()) or label.startswith("lemma."):
+            continue  # proof hints (cut lemmas) are exact-arithmetic statements: not run-time clauses
         for extra in envs:
             ns.update(extra)
             try:
